@@ -5,7 +5,7 @@ From Coq Require Import ZArith QArith Qcanon List Bool String Ring_theory.
 Import ListNotations.
 Require Import TV.Base.EP TV.Model.Lane TV.Spec.Born TV.gen.Gen_instructions TV.gen.Gen_channel_tables
   TV.Model.GateCheck TV.Model.InstrCheck TV.Model.KrausCheck TV.Proofs.InstrProofs TV.Base.Amp
-  TV.Proofs.CircuitTheorem TV.Proofs.DenseBridge TV.Proofs.KrausSem TV.Proofs.KrausTheorem TV.Proofs.KrausGates TV.Proofs.KrausCircuit.
+  TV.Proofs.CircuitTheorem TV.Proofs.DenseBridge TV.Proofs.KrausSem TV.Proofs.KrausTheorem TV.Proofs.KrausGates TV.Proofs.KrausNoise2 TV.Proofs.KrausCircuit.
 
 (* which Pauli the spiders apply for every error-bit pattern: X/Y/Z_ERROR, PAULI_CHANNEL_1/2, DEPOLARIZE1/2, E(...) *)
 Theorem C02_noise_paulis :
@@ -62,8 +62,10 @@ Proof. exact (conj noise1_at_ok meas_noisy_at_ok). Qed.
    register of any size n.  For EVERY assignment b of record, silent and error bits the executable dense model computes the ordered
    composition of the documented operators -- with exactly the Paulis that b's error bits select -- times a bit-independent product
    of powers of sqrt2 and a unit phase.  Together with the table theorems above (entry idx of a channel's table = the documented
-   probability of the Pauli drawn at idx) this is the mixture semantics of the channels, channel by channel.  Two-qubit channels,
-   correlated chains and MPP noise stay at fragment level (C02_noise_paulis, C02_correlated_chain, C02_measurement_noise). *)
+   probability of the Pauli drawn at idx) this is the mixture semantics of the channels, channel by channel.  The two-qubit
+   channels (DEPOLARIZE2, PAULI_CHANNEL_2; instruction CN2) are inside too: on amplitudes and bookkeeping their program is the
+   PAULI_CHANNEL_1 program on the first target followed by the one on the second (bits e0,e1 resp. e2,e3; C02_two_qubit_channel).
+   Correlated chains and MPP noise stay at fragment level (C02_correlated_chain, C02_measurement_noise). *)
 Theorem C02_circuit_dense :
   forall (R : Type) (rO rI : R) (radd rmul rsub : R -> R -> R) (ropp : R -> R),
   ring_theory rO rI radd rmul rsub ropp eq ->
@@ -77,8 +79,15 @@ Theorem C02_circuit_dense :
         (cspec R rO rI radd rmul ropp E half ta tb tc b (kinit R rO rI n) c (kpsi R (kinit R rO rI n))).
 Proof. exact circuit_kraus_dense. Qed.
 
+Theorem C02_two_qubit_channel :
+  forall (R : Type) (rO rI : R) (radd rmul : R -> R -> R) (ropp : R -> R) (E : Qc -> R) (half : R) (ta tb tc : Qc)
+         (b : Lane.bits) (qi qj : nat) (a1 a2 a3 a4 a5 a6 a7 a8 a9 a10 a11 a12 a13 a14 a15 x1 y1 z1 x2 y2 z2 : prob) (t : kst R),
+  krun R rO rI radd rmul ropp E half ta tb tc b (g_pauli_channel_2 qi qj a1 a2 a3 a4 a5 a6 a7 a8 a9 a10 a11 a12 a13 a14 a15) t
+  = krun R rO rI radd rmul ropp E half ta tb tc b (g_pauli_channel_1 qi x1 y1 z1 ++ g_pauli_channel_1 qj x2 y2 z2) t.
+Proof. exact pc2_is_two_pc1. Qed.
+
 Example C02_circuit_inhabited :
-  let c := [CG (GA1 "H" 1); CN "x_error" [1 # 8] 1; CG (GA2 "CX" 1 0); CN "pauli_channel_1" [1 # 16; 1 # 8; 1 # 4] 0; CN "depolarize1" [3 # 4] 2;
+  let c := [CG (GA1 "H" 1); CN "x_error" [1 # 8] 1; CG (GA2 "CX" 1 0); CN "pauli_channel_1" [1 # 16; 1 # 8; 1 # 4] 0; CN "depolarize1" [3 # 4] 2; CN2 [1 # 16] 0 2;
             CMp "mr" (1 # 8) true 1; CN "y_error" [1 # 2] 1; CMp "mx" (1 # 1000) false 0; CM "my" false 2]%string%Q in
   (exists ops, ccircuit_ops c = Some ops /\ (20 < List.length ops)%nat) /\ forallb (cinstr_lanes_ok 3) c = true.
 Proof. vm_compute. split; [eexists; split; [reflexivity | repeat constructor] | reflexivity]. Qed.
